@@ -6,7 +6,9 @@
 // budget, or more than 8 MiB + 1024*len bytes allocated by one call is a
 // violation. The two command line tools that are anchors of the property
 // (mp4ff-nallister, mp4ff-pslister) get the same material as Annex B streams
-// (tools.go) and wrapped into mp4 files (mp4wrap.go).
+// (tools.go) and wrapped into mp4 files (mp4wrap.go). The library calls that
+// build the plan itself are vetted in a bare probe first (guard.go): a hang or
+// a blow-up there is a violation too, not a harness failure.
 package c16
 
 import (
@@ -86,7 +88,6 @@ func buildPlan(env *runner.Env) {
 		{"chain", pick(3000, 100000)},
 		{"chain-ue", buildSysPlan(seeds, th)},
 		{"ctx-ue", buildCtxUEPlan(th)},
-		{"ctx-trunc", buildCtxTruncPlan(th)},
 		{"sei-ue", buildSEIUEPlan(seeds, th)},
 		{"ps-struct", buildStructPlan(th)},
 		{"flip", pick(12000, 600000)},
@@ -96,6 +97,8 @@ func buildPlan(env *runner.Env) {
 		{"sei-ffsize", seiFFSizeCount()},
 		{"mp4-tool", mp4ToolCount(th)},
 		{"tool-many-nalus", manyNalusCount()},
+		{"ctx-trunc", buildCtxTruncPlan(th)},
+		{"tool-sc-runs", scRunsCount()},
 	}
 	if only := os.Getenv("C16_ONLY"); only != "" {
 		// development aid (mutant validation of one generator): C16_ONLY=mp4-tool,sei-ffsize keeps only these plan entries
@@ -161,15 +164,27 @@ func init() {
 			"Systematic: class x value variant x applicable frame x codec with a record without parameter sets (so that mp4ff-pslister too goes to the samples), then a quarter of the random part with any record. " +
 			"Each file goes to mp4ff-nallister (no options; -c codec -sei 1 -ps; -c codec -sei 2 -raw 8 -m 1; segments without moov also -c <other codec> -sei 1) and mp4ff-pslister (-c codec -i f; -c codec -v -i f); its first two samples and the record also go through the library operations. A file with valid samples and a valid record must be accepted by both tools (checked in Finalize; mp4ff-pslister cannot read a segment without moov)). " +
 			"tool-many-nalus (54 cases: 256 / 4096 / as many as fit into 64 KiB one- and two-byte NAL units of six kinds as an Annex B stream, as one sample of a progressive and of a fragmented mp4 file: what the tools do per NAL unit of a sample must stay linear; the CPU time of every tool run is recorded as maxima.tool_max_cpu_ms). " +
+			"tool-sc-runs (round 7, 576 cases: Annex B streams with 2..5 start codes directly in a row = 1..4 consecutive empty NAL units, 3-byte / 4-byte / alternating code lengths, at the start, in the middle, at the end, at both ends, in every gap of a stream of real units and as the whole input, followed by 0..2 zero bytes, avc and hevc: " +
+			"every one goes to both tools (mp4ff-nallister -annexb, mp4ff-pslister -i <file without mp4 extension> -c codec -v) and through the library operations). " +
 			"2 % of the cases of the other generators (chain-ue: one variant of every 10th position) also go through the mp4ff-nallister and mp4ff-pslister binaries as Annex B streams / hex arguments. Tool verdicts: exit status 2 or a Go crash dump on stderr -> tool/<tool>/<top main or mp4 function>/<class> (the library key es/<function>/<class> when the top frame is codec-package code); more than 6 s CPU -> tool/<tool>/hang/cpu; resident set above 512 MiB + 1024*len(file) -> tool/<tool>/alloc/rss. " +
-			"The library calls that build the plan in each worker (parsing the seeds' own parameter sets, selecting the slices a context accepts) run under a recover wrapper: a panic there is recorded with its input and reported by case 0 as a violation, the unit counts as rejected. The library calls run in a probe subprocess of each worker whose monitor goroutine watches the call in flight " +
+			"ctx-trunc (round 6: every slice of every context - and, for the contexts of the reference serializers, ten (AVC) / up to twelve (HEVC) further slices with every loop the context permits forced on: ref_pic_list_modification commands of every kind for both lists, a full pred_weight_table, memory management operations of every kind; " +
+			"HEVC: list entries, weight tables of 16 entries per list, long-term pictures, entry points, header extension - cut short after every byte of the NAL unit and after every one of the first 512 (thorough 3200) RBSP bits with the rbsp_trailing_bits put back, so that the data ends behind every syntax element, in particular inside the command loops; " +
+			"parsed against the unmodified parameter sets of that context; one case = 32 consecutive cuts of one slice; evidence: ctx_trunc_slice_with lists which loops the cut slices had). " +
+			"The library calls that build the plan (parsing the seeds' own parameter sets, selecting the slices a context accepts: about 3 300) are vetted before they run in-process: each is repeated in a bare probe process " +
+			"(operation, input and the parameter-set maps as bytes) under the same monitor as the calls of the cases; a call that exceeds the CPU budget twice (fresh process each time), crosses the allocation bound or kills the bare probe is never run in-process: " +
+			"it is recorded with its input and the parameter sets it was parsed against (the witness replays) and reported by case 0 under es/<function>/cpu, /alloc or the crash class, the unit counts as rejected; a panic of a vetted call in-process is recorded the same way. " +
+			"The parent does this once (ParentInit) and hands the verdicts to the workers and their probes in a file, so every process builds the same plan; a process that does not find a call there (replay) vets it itself. " +
+			"The library calls of the cases run in a probe subprocess of each worker whose monitor goroutine watches the call in flight " +
 			"(bytes allocated since the call started, runtime/metrics /gc/heap/allocs:bytes, against 8 MiB + 1024*len; process CPU time against 2 s + 20 us*len, a CPU exceedance must be reproduced in a fresh probe; " +
-			"after a hang key is confirmed, calls found at 30 ms CPU inside the same function are aborted and counted as presumed repeats, not reported); the runner watchdog (6 s CPU per case, RLIMIT_AS 3 GiB) is the backstop. " +
+			"after a hang key is confirmed, calls found at 30 ms CPU inside the same function are aborted and counted as presumed repeats, not reported; after 3 presumed repeats, or 50 trips of one allocation / crash key, through the same operation that operation is suspended for the rest of the run in every worker - " +
+			"not called, counted, named in a coverage note - so that a defect which most inputs reach does not cost a process restart per input; a tool whose hang was reported is killed after 1.5 s from then on and not run any more after 8 such runs in a worker; " +
+			"the probe's goroutine stacks are limited to 64 MiB); the runner watchdog (6 s CPU per case, RLIMIT_AS 3 GiB) is the backstop. " +
 			"A case is non-trivial when at least one operation accepted the input (returned a value without error); distinct_nontrivial counts distinct such input hashes; evaluations counts library calls and tool runs.",
 		Assumptions: []string{
 			"external SEI parameters stay inside what a parsed SPS can produce (5-bit length fields 0..31)",
 			"allocation is measured as the cumulative heap allocation delta of the worker (GOMAXPROCS=2, nothing else running); small-object accounting lags by at most a few spans, far below the 8 MiB slack",
-			"the plan (which contexts and slices exist) depends on what the library accepts during setup; a hang or an allocation blow-up of the library on the well-formed setup inputs themselves would still end as a harness failure (only panics are recovered there)",
+			"the plan (which contexts and slices exist) depends on what the library accepts during setup: a unit on which the library hangs, blows up or crashes counts as rejected, and after 50 such failures of one key through one operation the later calls of that operation count as rejected without being made (coverage note); the plan of a tree with such a defect is smaller than that of the repaired tree",
+			"an operation suspended behind a confirmed hang / repeated allocation or crash key is not exercised for the rest of that run: what else is wrong with it shows after the reported defect is repaired (the run exits 1 either way)",
 			"mp4-tool: box sizes always tile the file (hostile box sizes and nesting are the subject of C04). Since round 5 the values by which the two tools find the elementary-stream bytes - chunk offsets, sample sizes and counts, stsc runs, time-table lengths, trex/tfhd/trun offsets and sizes, and the presence of each box on that path - are varied one at a time around valid samples: the tools are anchors of C16 and index / slice with these values themselves. A crash inside container code (mp4.*) that a tool reaches with such a value is reported under the tool's key. A sample entry without avcC/hvcC box and records with zero parameter sets count as configuration-record edge cases",
 			"a file that announces many samples is allowed to cost time proportional to that number: stsz without table with a huge sample_count and size 0 (4 billion empty samples in a 1 KiB file) is not generated",
 			"'memory bounded by a small multiple of the input length' is read as the fixed bound 8 MiB + 1024*len per library call (DESIGN.md C04/C16) and 512 MiB + 1024*len resident set per tool run; the 256x allocation of sei.ExtractSEIData for an ff-run size field is inside it and recorded as an observation (maxima.sei_extraction_*), the largest tool resident set as maxima.tool_max_rss_kib",
@@ -263,6 +278,9 @@ func run(c *runner.Ctx, idx int) {
 		return
 	case "tool-many-nalus":
 		runManyNalus(c, sub)
+		return
+	case "tool-sc-runs":
+		runSCRuns(c, sub)
 		return
 	default:
 		c.Inconclusive("case index outside the plan")
@@ -446,6 +464,15 @@ func finalize(a *runner.Agg) {
 		if strings.HasSuffix(k, "(fallback)") {
 			a.Note("mp4-tool: a test file of the repo was not usable as a frame, built frame used instead: %s", k)
 		}
+	}
+	for k := range a.Seen["operation_suspended_behind_confirmed_hang_key"] {
+		a.Note("operation suspended after %d presumed repeats of a confirmed hang key / %d trips of one allocation or crash key (not called for the rest of the run; what else is wrong with it shows once that defect is repaired): %s", suspendAfter, suspendAfterTrips, k)
+	}
+	for k := range a.Seen["operation_suspended_during_plan_construction"] {
+		a.Note("plan construction stopped calling an operation after %d failures of one key (hang, allocation, crash); the contexts built afterwards have no unit that needs it: %s", suspendAfterTrips, k)
+	}
+	for k := range a.Seen["tool_suspended_behind_reported_hang"] {
+		a.Note("tool not run any more after %d runs killed at the short timeout behind a reported hang: %s", toolSuspendAfter, k)
 	}
 	if v, ok := a.Maxes["sei_extraction_max_allocated_bytes_per_input_byte_x100(inputs >= 256 bytes)"]; ok {
 		a.Extra["sei_extraction_allocation"] = fmt.Sprintf("largest allocation of one SEI extraction call: %d bytes; largest ratio allocated/input bytes (inputs >= 256 bytes): %.1f "+
